@@ -189,7 +189,7 @@ class Build:
             how = r[3] if len(r) > 3 else "func"
             if how == "func":
                 return optyx.quadratic_form(v, Q)
-            if how in ("bool", "uint8", "int64"):
+            if how in ("bool", "uint8", "int64", "int8"):
                 # the matrix given with another NumPy dtype (a 0/1 adjacency mask, small integers)
                 return optyx.quadratic_form(v, np.asarray(Q, dtype=float).astype(getattr(np, "bool_" if how == "bool" else how)))
             return v.dot(Q @ v)
